@@ -62,6 +62,10 @@ func c05Shapes() []linkShape {
 		add("absolute-out-file", "/w/outside/file.txt")
 		add("absolute-out-dir", "/w/outside/dir")
 		add("absolute-sibling-prefix", "/w/src-evil/secret.txt")
+		// the same outside directory / file, spelled at greater length
+		add("absolute-out-dir-spelled-with-dot-segments", "/w/outside/./././././dir")
+		add("absolute-out-dir-spelled-with-slashes-and-a-detour", "/w//outside///file.txt/..//dir///")
+		add("absolute-out-file-spelled-with-a-detour", "/w/outside/dir/../dir/../file.txt")
 		add("chain-in-to-out", "{UP}hop")             // hop -> ../outside/file.txt
 		add("chain-out-to-in", "{UP}../outside/back") // back -> ../src/a.txt
 		add("chain-out-to-out", "{UP}../outside/chain")
@@ -561,7 +565,7 @@ func init() {
 	fw.Register(&fw.Property{
 		ID:    "C05",
 		Level: "exploration",
-		Rule: "a source tree with a prefix-sharing sibling (src / src-evil) and an outside area full of OUTSIDE-<n> canaries gets 1-6 links of 43 shapes (incl. links that stay inside as written but are led outside by another link) (in-tree: same dir, via root, dir, dot, dangling, dotted; out-of-tree: relative file/dir/dangling, sibling-prefix, via the root's own name, absolute in/out, chains in->out, out->in, out->out, external directory with inner links, parent, root itself) at 3 depths; " +
+		Rule: "a source tree with a prefix-sharing sibling (src / src-evil) and an outside area full of OUTSIDE-<n> canaries gets 1-6 links of 46 shapes (incl. links that stay inside as written but are led outside by another link) (in-tree: same dir, via root, dir, dot, dangling, dotted; out-of-tree: relative file/dir/dangling, sibling-prefix, via the root's own name, absolute in/out, chains in->out, out->in, out->out, external directory with inner links, parent, root itself) at 3 depths; " +
 			"packed with {dereference on/off} x {ignore on/off} x 5 allow-list settings x {fresh Packer, a Packer that packed another root at another depth before}; the slug is decoded independently and every entry is compared with the tree and with the physical target of its link; slugs from all-relative trees are handed to Unpack. Exhaustive over single shapes x option sets, PRNG over combinations. " +
 			"non-trivial = some link leaves the tree or approaches its boundary; distinct = links x options",
 		Assumptions: []string{"a link is out-of-tree when the place its target names, from the link's real location, is outside the source directory (component-wise)", "absolute links that point into the tree may be stored as absolute link entries (pinned by the repository's tests); such trees are exempt from the 'Unpack accepts' clause", "link cycles and links to special files belong to C19"},
@@ -588,6 +592,11 @@ func init() {
 		Name: "meta-when-a-file-changes-while-packing", Chroot: true, Exhaustive: true,
 		N:   func(string) int { return 5 * 4 * 4 },
 		Run: c20ChangingFile,
+	})
+	c20 = append(c20, &fw.Phase{
+		Name: "files-with-several-names", Chroot: true, Exhaustive: true,
+		N:   func(string) int { return 4 * len(allPackOpts) },
+		Run: c20HardLinks,
 	})
 	fw.Register(&fw.Property{
 		ID:    "C20",
@@ -875,6 +884,48 @@ func c20FailingWriter(env *fw.Env, idx int) fw.Result {
 			res.Msg = fmt.Sprintf("the writer accepted only %d of %d bytes, Pack returned a Meta and no error, but: %s", lim, L, msg)
 			return res
 		}
+	}
+	return res
+}
+
+// c20HardLinks: a file that has several names (hard links) is stored once per
+// name, and every stored byte counts.
+func c20HardLinks(env *fw.Env, idx int) fw.Result {
+	opts := allPackOpts[idx%len(allPackOpts)]
+	f := func(p string, n int) gen.NodeSpec {
+		return gen.NodeSpec{Path: p, Kind: "file", Mode: 0644, Content: strings.Repeat("h", n), Mtime: 1500000000}
+	}
+	h := func(p, t string) gen.NodeSpec { return gen.NodeSpec{Path: p, Kind: "hardlink", Target: t} }
+	var t gen.TreeSpec
+	switch idx / len(allPackOpts) {
+	case 0:
+		t.Nodes = []gen.NodeSpec{f("a.txt", 1000), h("b.txt", "a.txt")}
+	case 1:
+		t.Nodes = []gen.NodeSpec{f("a.txt", 1000), h("b.txt", "a.txt"), h("sub/c.txt", "a.txt"), f("sub/other.txt", 7)}
+	case 2:
+		t.Nodes = []gen.NodeSpec{f("deep/er/a.bin", 40000), h("a-again.bin", "deep/er/a.bin"), f("z", 1)}
+	default:
+		// a second name reached through a link (copied when dereferencing)
+		t.Nodes = []gen.NodeSpec{f("a.txt", 300), h("b.txt", "a.txt"), {Path: "l", Kind: "link", Target: "b.txt"}}
+	}
+	res := fw.Result{Hash: fw.HashString("hl" + t.Key() + opts.String()), NonTrivial: true, Class: "several-names", Case: map[string]interface{}{"tree": t.Strings(), "opts": opts.String()}}
+	if err := freshDir("/c20h"); err != nil {
+		return fw.Result{Verdict: fw.Inconclusive, Msg: err.Error()}
+	}
+	if err := gen.Materialise("/c20h/src", t); err != nil {
+		return fw.Result{Verdict: fw.Inconclusive, Msg: err.Error()}
+	}
+	o := doPack("/c20h/src", opts)
+	if o.Panic != "" {
+		res.Verdict, res.Finding, res.Msg = fw.Violated, "pack-panic", o.Panic
+		return res
+	}
+	if o.Err != nil {
+		res.Class = "pack-failed"
+		return res
+	}
+	if msg := metaCheck(o); msg != "" {
+		res.Verdict, res.Finding, res.Msg = fw.Violated, "meta-mismatch", "a tree in which one file has several names: "+msg
 	}
 	return res
 }
